@@ -59,7 +59,14 @@ def run_nested(n):
         buf = Buffer('buf', upstream=[src], capacity=12)
         mid = PartProcessor('m', upstream=[buf], cycle_time=n['c2'] / T)
         snk = Sink('snk', upstream=[mid], collect_parts=True)
+        # names need not be unique: two further assets that share one, each worth something
+        from simprocesd.model.factory_floor import Asset, Maintainer
+        Asset('spare', value=vals[0] / T + 1)
+        Asset('spare', value=vals[-1] / T + 2)
+        m1, m2 = Maintainer(), Maintainer()          # (both get the library's default name)
         system.simulate(n['d'] / T, print_summary=False)
+        m1.add_cost('tools', 3)
+        m2.add_cost('tools', 5)
     items = list(snk.collected_parts)
     res = dict(items=[(common.to_ticks(it.value), common.to_ticks(_leaf_sum(Batch, it))) for it in items],
                inner=[(common.to_ticks(p.value), common.to_ticks(_leaf_sum(Batch, p))) for it in items for p in it.parts if isinstance(p, Batch)],
